@@ -18,7 +18,7 @@ def key_algo(kind):
 
 
 def topo(scn):
-    return [{'name': 'C', 'dll': 'j1939-21', 'max_cmdt': scn.get('c_max_cmdt', 1), 'cas': [{'addr': C_ADDR, 'listen': False}]},
+    return [{'name': 'C', 'dll': 'j1939-21', 'max_cmdt': scn.get('c_max_cmdt', 1), 'cas': [{'addr': scn.get('c_addr', C_ADDR), 'listen': False}]},
             {'name': 'S', 'dll': 'j1939-21', 'max_cmdt': scn.get('s_max_cmdt', 1), 'cas': [{'addr': S_ADDR, 'listen': False}]}]
 
 
@@ -33,6 +33,7 @@ class Dm14Net:
     def __init__(self, scn, keep_log=False):
         scn.setdefault('stacks', topo(scn))
         self.scn = scn
+        self.c_addr = scn.get('c_addr', C_ADDR)
         self.w = World(scn, keep_log=keep_log)
         self.sim = self.w.sim
         self.bus = self.w.bus
